@@ -29,13 +29,13 @@ def sh(cmd, cwd=None, env=None, timeout=3600):
     return r.returncode, r.stdout
 
 
-def scratch_copy(name):
+def scratch_copy(name, rev="HEAD"):
     d = os.path.join(SCRATCH, name)
     shutil.rmtree(d, ignore_errors=True)
     os.makedirs(SCRATCH, exist_ok=True)
     # a plain copy of the working tree (tracked files at HEAD), no .git
     os.makedirs(d)
-    rc, out = sh("git -C /repo archive HEAD | tar -x -C %s" % d)
+    rc, out = sh("git -C /repo archive %s | tar -x -C %s" % (rev, d))
     if rc != 0:
         raise SystemExit("cannot copy /repo: " + out)
     return d
@@ -48,8 +48,9 @@ def demo_files(sdir):
 def verify(sdir, meta, log):
     """returns (ok, details)"""
     name = os.path.basename(sdir)
-    base = scratch_copy(name + "-base")
-    mut = scratch_copy(name + "-mut")
+    rev = meta.get("repo_rev", "HEAD")  # a change made impossible by a later fix: commit is pinned to the tree it was written for
+    base = scratch_copy(name + "-base", rev)
+    mut = scratch_copy(name + "-mut", rev)
     res = {}
     try:
         rc, out = sh(["git", "apply", "--whitespace=nowarn", os.path.join(sdir, "patch.diff")], cwd=mut)
